@@ -376,6 +376,8 @@ func init() {
 		checkSuperTriangle(ctx, r)
 		checkParallelSlices(ctx, r)
 		checkHullTest(ctx, r)
+		checkReferenceVisitsEveryTriple(ctx, r)
+		checkCanonicalHasNoShortcut(ctx, r)
 		r.floor("Y4", 3)
 		r.floor("Y5", 2)
 	}}
@@ -872,4 +874,120 @@ func checkHullTest(ctx *Ctx, r *Report) {
 	}
 	walk(fn, 0)
 	r.floor("Y8", 1)
+}
+
+// checkReferenceVisitsEveryTriple (Y9): the brute-force reference starts from the index triple
+// {0, 1, 2} and steps to the next combination after examining the current one. A loop that
+// advances first (`for nextCombination(n, c) {`) never examines the first triple: the reference
+// then lacks a triangle whenever points 0, 1, 2 form one (always for three points; likely after
+// the fast path has x-sorted the slice in place). Decided on the CFG: the block that reads the
+// triple to build the candidate triangle is reachable from the entry without passing a call of
+// the stepping function.
+func checkReferenceVisitsEveryTriple(ctx *Ctx, r *Report) {
+	fn := ctx.ssaFunc("render", "Delaunay2dSlow")
+	if fn == nil {
+		r.undecided("Y9", "Delaunay2dSlow", 0, "not found")
+		return
+	}
+	// the stepping calls, and the first read of the combination slice they step
+	var steps []*ssa.Call
+	allInstrs(fn, func(_ *ssa.BasicBlock, ins ssa.Instruction) {
+		if c, ok := ins.(*ssa.Call); ok {
+			if g := c.Call.StaticCallee(); g != nil && strings.Contains(strings.ToLower(g.Name()), "combination") {
+				steps = append(steps, c)
+			}
+		}
+	})
+	if len(steps) == 0 {
+		r.check("Y9", "Delaunay2dSlow|first-triple-is-examined", fn.Pos(), true, "the reference does not step through combinations with a helper (rule not applicable to this shape)")
+		r.floor("Y9", 1)
+		return
+	}
+	var comb ssa.Value
+	for _, a := range steps[0].Call.Args {
+		if _, ok := a.Type().Underlying().(*types.Slice); ok {
+			comb = a
+		}
+	}
+	var reads []ssa.Instruction
+	allInstrs(fn, func(_ *ssa.BasicBlock, ins ssa.Instruction) {
+		if ia, ok := ins.(*ssa.IndexAddr); ok && comb != nil && sameSlice(ia.X, comb) {
+			reads = append(reads, ia)
+		}
+	})
+	if comb == nil || len(reads) == 0 {
+		r.undecided("Y9", "Delaunay2dSlow", fn.Pos(), "the combination slice or its reads were not found")
+		return
+	}
+	// forward search from the entry; a block with a stepping call is passable only up to the call
+	stepIn := map[*ssa.BasicBlock]ssa.Instruction{}
+	for _, c := range steps {
+		if _, has := stepIn[c.Block()]; !has {
+			stepIn[c.Block()] = c
+		}
+	}
+	reached := false
+	seen := map[*ssa.BasicBlock]bool{}
+	work := []*ssa.BasicBlock{fn.Blocks[0]}
+	for len(work) > 0 && !reached {
+		b := work[len(work)-1]
+		work = work[:len(work)-1]
+		if seen[b] {
+			continue
+		}
+		seen[b] = true
+		blocked := false
+		for _, ins := range b.Instrs {
+			if ins == stepIn[b] {
+				blocked = true
+				break
+			}
+			for _, rd := range reads {
+				if ins == rd {
+					reached = true
+				}
+			}
+		}
+		if !blocked {
+			work = append(work, b.Succs...)
+		}
+	}
+	r.check("Y9", "Delaunay2dSlow|first-triple-is-examined", fn.Pos(), reached, fmt.Sprintf("%d reads of the index triple, %d stepping calls: a read is reachable from the entry before any step", len(reads), len(steps)))
+	r.floor("Y9", 1)
+}
+
+// checkCanonicalHasNoShortcut (Y3): the canonical form of a set is reached by rotating every
+// triple and then sorting, always. An early return for a set that "is already sorted" skips the
+// rotations: {[1 2 0]} and {[0 1 2]} then compare unequal. Every return lies behind the sort.
+func checkCanonicalHasNoShortcut(ctx *Ctx, r *Report) {
+	fn := ctx.ssaFunc("render", "(TriangleISet).Canonical")
+	if fn == nil {
+		return // Y3 reports it
+	}
+	var sorts []ssa.Instruction
+	allInstrs(fn, func(_ *ssa.BasicBlock, ins ssa.Instruction) {
+		if c, ok := ins.(*ssa.Call); ok {
+			if g := c.Call.StaticCallee(); g != nil && g.Pkg != nil && (g.Pkg.Pkg.Path() == "sort" || g.Pkg.Pkg.Path() == "slices") && strings.HasPrefix(g.Name(), "S") && g.Name() != "Search" {
+				sorts = append(sorts, ins)
+			}
+		}
+	})
+	bad := ""
+	nRet := 0
+	allInstrs(fn, func(b *ssa.BasicBlock, ins ssa.Instruction) {
+		if _, ok := ins.(*ssa.Return); !ok || fn.Recover == b {
+			return
+		}
+		nRet++
+		behind := false
+		for _, s := range sorts {
+			if s.Block() == b || s.Block().Dominates(b) {
+				behind = true
+			}
+		}
+		if !behind {
+			bad += " the return at " + ctx.pos(lastPos(b)) + " can be reached without sorting;"
+		}
+	})
+	r.check("Y3", "TriangleISet.Canonical|no-return-before-rotation-and-sort", fn.Pos(), bad == "" && len(sorts) > 0, fmt.Sprintf("%d returns, %d sorting calls;%s", nRet, len(sorts), bad))
 }
